@@ -1846,7 +1846,8 @@ func (interp *Interpreter) cfg(root *node, sc *scope, importPath, pkgName string
 				}
 			}
 			n.findex = sc.add(n.typ)
-			if n.start.action == aNop {
+			if n.start.action == aNop && unparen(n.child[0]).start == n.start && unparen(n.child[0]).kind != binaryExpr {
+				// The left operand is a plain boolean value: it needs a branch operation.
 				n.start.gen = branch
 			}
 
@@ -1877,7 +1878,8 @@ func (interp *Interpreter) cfg(root *node, sc *scope, importPath, pkgName string
 				}
 			}
 			n.findex = sc.add(n.typ)
-			if n.start.action == aNop {
+			if n.start.action == aNop && unparen(n.child[0]).start == n.start && unparen(n.child[0]).kind != binaryExpr {
+				// The left operand is a plain boolean value: it needs a branch operation.
 				n.start.gen = branch
 			}
 
@@ -2824,6 +2826,14 @@ func constBool(n *node) (b, ok bool) {
 		return n.rval.Bool(), true
 	}
 	return false, false
+}
+
+// unparen returns the expression node enclosed in parentheses.
+func unparen(n *node) *node {
+	for n.kind == parenExpr && len(n.child) > 0 {
+		n = n.lastChild()
+	}
+	return n
 }
 
 // setFnext sets the cond fnext field to next, propagates it for parenthesis blocks
